@@ -138,6 +138,27 @@ def check_container(ctx, g, w, c, fails, flags):
     again = cont.records
     if len(again) != n or any(a is not b for a, b in zip(again, recs)):
         fails.append(Failure("oracle", None, "mutating the list returned by .records changed the container", {"ops": list(w.ops)}))
+    # ... and so is what get_records() hands out: a caller that sorts or empties it does not change what the container lists
+    lst = cont.get_records()
+    if isinstance(lst, list):
+        lst.append(None)
+        lst.reverse()
+        del lst[:max(1, len(lst) // 2)]
+    again = cont.records
+    if len(again) != n or any(a is not b for a, b in zip(again, recs)):
+        fails.append(Failure("oracle", None, "mutating the list returned by get_records() changed the container's record list "
+                             "(the identifier index still answers for the old one)", {"ops": list(w.ops), "mutate_get_records": c}))
+    if g.chance(0.1) and not any(r.identifier is not None and r.identifier.uri == "http://example.org/late-arrival" for r in recs):
+        # a typed listing answers for the moment it was asked: a record that arrives afterwards is not in it
+        from prov.model import ProvEntity
+        listing = cont.get_records(ProvEntity)
+        before = [r for r in recs if isinstance(r, ProvEntity)]
+        w.new_record(c, "Entity", QualifiedName(Namespace("ex", "http://example.org/"), "late-arrival"), [])
+        got = list(listing)
+        if len(got) != len(before) or any(a is not b for a, b in zip(got, before)):
+            fails.append(Failure("oracle", None, "get_records(ProvEntity) asked before a record arrived lists %d record(s) when read "
+                                 "afterwards; %d entities were there when it was asked" % (len(got), len(before)), {"ops": list(w.ops)}))
+        flags.add("listing-read-after-arrival")
 
 
 def adoption_scenario(ctx, g, w, fails, flags):
